@@ -212,6 +212,94 @@ for _p in ("C05", "C15", "C16"):
     HANDLERS[_p] = check_mac
 
 
+# ----------------------------------------------------------------------------- C18: harness/rustc
+
+def run_probes():
+    import rustc_probes as rp
+    jf = os.path.join(tdir(), "rustc-probes.json")
+    with Lock("rustc-probes"):
+        if os.path.exists(jf):
+            return json.load(open(jf))
+        engine.lean_build()   # runs the translator: Gen/sigs.json
+        sj = os.path.join(VERIF, "lean", "Gecs", "Gen", "sigs.json")
+        res = {"crashed": None, "results": [], "wall_s": 0}
+        if not os.path.exists(sj):
+            res["crashed"] = "signature table was not generated (translator failed)"
+        else:
+            sigs = json.load(open(sj))
+            probes = rp.gen_corpus(sigs)
+            results, rc, err, wall = rp.run_corpus(probes, os.path.join(CACHE, "rustc-probes"), os.path.join(CACHE, "target-probes"), ENV)
+            res.update({"results": results, "cargo_rc": rc, "wall_s": wall, "n": len(probes)})
+            if not any(r.get("compiled") for r in results):
+                res["crashed"] = "no probe compiled at all: " + err[-600:]
+        json.dump(res, open(jf, "w"))
+        return res
+
+
+def check_c18(prop, tier, seed):
+    t0 = time.time()
+    lean = lean_obligations(prop)
+    build = engine.lean_build()
+    pr = run_probes()
+    # (a) end-to-end: the harness that declares worlds and ~50 query invocations is compiled under
+    # #![forbid(unsafe_code)] in both quick configurations
+    rt_builds = {c: engine.build_rt(c) for c in engine.QUICK_CONFIGS}
+    mac = run_mac_stream(seed, 250, 4)
+    unsound = [r for r in pr["results"] if r["expect"] == "fail" and not r["agree"]]
+    twins = [r for r in pr["results"] if r["expect"] == "ok" and not r["agree"]]
+    missing = [r for r in pr["results"] if r["expect"] in ("missing-sig", "missing-template")]
+    unsafe_emitted = [d for d in mac.get("diffs", []) if "UNSAFE" in d.get("impl", "")]
+    rc = 0
+    if unsound or unsafe_emitted:
+        if unsound:
+            r = unsound[0]
+            src = os.path.join(CACHE, "rustc-probes", "src", "bin", r["name"] + ".rs")
+            data = {"property": prop, "kind": "rustc-probe", "name": r["name"], "why": r["why"], "expected": "must not compile",
+                    "observed": "compiles" if r.get("compiled") else f"fails, but not with a borrow/auto-trait error: {r.get('errors')}",
+                    "program": open(src).read() if os.path.exists(src) else None}
+        else:
+            data = {"property": prop, "kind": "mac-oracle", "class": "unsafe-token", "what": "a generator emitted a forbidden token",
+                    "case_lines": [unsafe_emitted[0]["case"]]}
+        path = write_replay(prop, "unsound-program-compiles" if unsound else "unsafe-token", data)
+        print(f"VIOLATION property={prop} replay={path}")
+        rc = 1
+    elif lean["broken"] or twins or missing or pr.get("crashed") or not build.get("extract_ok", True) or not all(b["ok"] for b in rt_builds.values()):
+        data = {"property": prop, "kind": "proof" if lean["broken"] else "rustc-correspondence", "broken_obligations": lean["broken"],
+                "twins_that_do_not_compile": twins[:5], "signature_table_vs_corpus": missing[:10], "crashed": pr.get("crashed"),
+                "translator": build.get("extract_log") if not build.get("extract_ok", True) else None,
+                "harness_rt_under_forbid_unsafe_code": {c: b["ok"] for c, b in rt_builds.items()},
+                "note": "no unsound program was found to compile; the property is no longer shown to hold"}
+        path = write_replay(prop, "unproved", data)
+        print(f"VIOLATION property={prop} replay={path} no-failing-input-found")
+        rc = 1
+    n_bad = sum(1 for r in pr["results"] if r["expect"] == "fail")
+    cov = {
+        "obligations": lean["obligations"], "discharged": lean["discharged"], "checker_cmd": lean["checker_cmd"],
+        "trusted_base": TRUSTED_BASE + ["tools/extract.py (tokenizer-based translator: template tokens, struct fields, unsafe impls, API signatures)",
+                                        "rustc is the implementation for the envelope; the borrow checker itself is not formalised: (b) is decided for the signature-level model and validated program by program over the generated corpus"],
+        "theorems": lean.get("names", []), "axioms_per_theorem": lean["axioms"], "broken_obligations": lean["broken"],
+        "programs": len(pr["results"]), "disagreements_checked": len(unsound) + len(twins),
+        "evaluations": len(pr["results"]), "distinct_nontrivial": n_bad,
+        "rule": "one program per (borrowing API item, structural operation) pair of the generated signature table + clone + closure arguments of the five macros + two-&mut + &mut entity + thread/auto-trait cases; each unsound program has a sound twin; non-trivial = programs that must NOT compile",
+        "samples": [{"name": r["name"], "expect": r["expect"], "why": r["why"], "errors": r.get("errors", [])[:1]} for r in pr["results"][:3]] +
+                   [{"obligation": n, "axioms": lean["axioms"].get(n)} for n in lean.get("names", [])[:4]],
+        "must_not_compile": n_bad, "must_compile": sum(1 for r in pr["results"] if r["expect"] == "ok"),
+        "unsound_programs_that_compile": len(unsound), "twins_that_fail": len(twins),
+        "rustc_wall_s": pr.get("wall_s"), "harness_rt_compiles_under_forbid_unsafe_code": {c: b["ok"] for c, b in rt_builds.items()},
+        "emitted_streams_scanned_for_forbidden_tokens": mac.get("cases", 0),
+    }
+    ev = {"property_id": prop, "tier": tier, "seed": seed, "level": "proof", "coverage": cov, "assumptions": cov["trusted_base"],
+          "wall_s": round(time.time() - t0, 2), "violations": 1 if rc else 0}
+    os.makedirs(EVID, exist_ok=True)
+    json.dump(ev, open(os.path.join(EVID, prop + ".json"), "w"), indent=1)
+    if rc == 0:
+        print(f"PASS property={prop} tier={tier} obligations={lean['discharged']}/{lean['obligations']} programs={len(pr['results'])}")
+    return rc
+
+
+HANDLERS["C18"] = check_c18
+
+
 def replay_mac(data):
     work = os.path.join(tdir(), "replay-mac-%d" % os.getpid())
     os.makedirs(work, exist_ok=True)
